@@ -301,8 +301,8 @@ def run(tier, seed, log):
     configs.append(dict(name="B", ids=ids_b, W=1, alphabet=ordering_alphabet(3, 1, ids_b), prune=True))
     configs.append(dict(name="S", ids=[7, -2, 5, 3], W=1, alphabet=sorting_alphabet(4), prio=[2, 1, 1, 0]))
     if tier == "thorough":
-        configs.append(dict(name="C", ids=[0, 2, 0, -3], W=2, L=2, level=2, prune=True, max_levels=4,
-                            frontier_cap=600))
+        configs.append(dict(name="C", ids=[0, 2, 0, -3], W=2, L=2, level=2, prune=True, max_levels=5,
+                            frontier_cap=1000))
     impl_a = None
     for cfg in configs:
         rng = random.Random(seed * 7919 + len(cfg["ids"]))
